@@ -9,9 +9,9 @@ use compute::linalg::{
 
 // ---------------------------------------------------------------------------------------------
 // matrix classes of the property text
-pub const CLASSES: [&str; 10] = [
+pub const CLASSES: [&str; 11] = [
     "dense", "integer-known", "spd", "sym-indef-posdiag", "diag-dominant", "perm-scaled-triangular", "graded", "tiny-scale-posdiag", "sym-dd-posdiag",
-    "sym-int-posdiag",
+    "sym-int-posdiag", "near-singular",
 ];
 
 fn pow2(k: i64) -> f64 { (2.0f64).powi(k as i32) }
@@ -45,6 +45,17 @@ pub fn gen_matrix(r: &mut Rng, c: &str, n: usize) -> Vec<f64> {
                 let v = if i == j { r.uniform(0.5, 2.0) } else { let m = r.uniform(2.5, 6.0); if r.coin(0.5) { m } else { -m } };
                 a[i * n + j] = v; a[j * n + i] = v;
             }}
+        }
+        "near-singular" => {
+            // nonsingular but ill-conditioned (cond 1e4 .. 1e11): the last row is a combination of the others plus a small multiple of a fresh
+            // direction; with a right-hand side b = A.x, x of order one, a backward-stable solver still meets the residual bound, a formula
+            // that is not backward stable (Cramer's rule, normal equations) does not
+            for x in a.iter_mut() { *x = r.uniform(-4.0, 4.0); }
+            if n >= 2 {
+                let delta = (10.0f64).powf(-r.uniform(4.0, 10.5));
+                let w: Vec<f64> = (0..n - 1).map(|_| r.uniform(-2.0, 2.0)).collect();
+                for j in 0..n { let mut sum = 0.0; for i in 0..n - 1 { sum += w[i] * a[i * n + j]; } a[(n - 1) * n + j] = sum + delta * a[(n - 1) * n + j]; }
+            }
         }
         "sym-int-posdiag" => {
             // symmetric small-integer entries with many zeros and a positive diagonal: the Cholesky sweep meets pivots that cancel EXACTLY to
@@ -101,8 +112,8 @@ pub fn gen_matrix(r: &mut Rng, c: &str, n: usize) -> Vec<f64> {
 
 pub fn gen_rhs(r: &mut Rng, c: &str, a: &[f64], n: usize, k: usize) -> Vec<f64> {
     // row-major n x k
-    if c == "integer-known" {
-        let x: Vec<f64> = (0..n * k).map(|_| r.small_int(5)).collect();
+    if c == "integer-known" || c == "near-singular" {
+        let x: Vec<f64> = if c == "integer-known" { (0..n * k).map(|_| r.small_int(5)).collect() } else { (0..n * k).map(|_| r.uniform(-4.0, 4.0)).collect() };
         let mut b = vec![0.0; n * k];
         for i in 0..n { for j in 0..k { let mut s = 0.0; for l in 0..n { s += a[i * n + l] * x[l * k + j]; } b[i * k + j] = s; } }
         b
@@ -255,7 +266,7 @@ pub fn gen(tier: &str, seed: u64, outdir: &str) {
         }
     }
     cs.write(outdir, if thorough { 60 } else { 150 },
-             "ten matrix classes (random dense, integer with known solution, SPD, symmetric indefinite with positive diagonal, symmetric small-integer with positive diagonal (exact zero pivots), symmetric diagonally dominant, diagonally dominant, permuted/scaled triangular, graded over ten decades, tiny-scale non-symmetric with positive diagonal) x every order 1..12 (quick) / 1..32 (thorough) x 1..6 right-hand sides through all six entry points (solve, solve_sys, invert_matrix, Matrix::solve for Vector and Matrix, Matrix::inv) and the two routing predicates; predicate-boundary matrices (asymmetry at the tolerance, zero/negative/NaN diagonal), singular matrices, every small layout conversion, and a malformed stream of arbitrary lengths/shapes; non-trivial = order >= 2 (value cases), a panic (malformed stream); distinct by hash of the case term");
+             "eleven matrix classes (ill-conditioned with b = A.x; random dense, integer with known solution, SPD, symmetric indefinite with positive diagonal, symmetric small-integer with positive diagonal (exact zero pivots), symmetric diagonally dominant, diagonally dominant, permuted/scaled triangular, graded over ten decades, tiny-scale non-symmetric with positive diagonal) x every order 1..12 (quick) / 1..32 (thorough) x 1..6 right-hand sides through all six entry points (solve, solve_sys, invert_matrix, Matrix::solve for Vector and Matrix, Matrix::inv) and the two routing predicates; predicate-boundary matrices (asymmetry at the tolerance, zero/negative/NaN diagonal), singular matrices, every small layout conversion, and a malformed stream of arbitrary lengths/shapes; non-trivial = order >= 2 (value cases), a panic (malformed stream); distinct by hash of the case term");
 }
 
 // ---------------------------------------------------------------------------------------------
